@@ -80,6 +80,7 @@ def run(ctx):
     for bi, b in enumerate(body["blocks"]):
         pass
     dex = D.Dex(w.lookup, adt_discr=w.adt_discr, unroll=0, inline=lambda n: False, effects=lambda n: n.startswith("ruma_html::"), max_paths=400000)
+    paths = []
     try:
         paths = dex.paths(f, [D.sym("self"), D.sym("node"), D.sym("depth")])
         for p in paths:
@@ -116,6 +117,7 @@ def run(ctx):
         ctx.check(not bad_order, "C14.nodes", "C14.nodes:verdict-order", w.where(f), bad_msg=f"element checks are consulted out of the documented order: {bad_order[:2]}")
     except D.Unrecognised as e:
         ctx.unrecognised("C14.nodes", "C14.nodes:node_action", w.where(f), str(e))
+    reply_fallback_rule(ctx, w, f, paths)
     fc = w.fn(CL + "<impl ruma_html::sanitizer_config::SanitizerConfig>::clean_node")
     dex2 = D.Dex(w.lookup, adt_discr=w.adt_discr, unroll=1, effects=lambda n: n.startswith("ruma_html::"))
     paths = dex2.paths(fc, [D.sym("self"), D.sym("node"), D.sym("depth")])
@@ -328,3 +330,73 @@ def mode_valuation(mode, options=None):
                     return None if mode is None else y.rsplit("::", 1)[-1] == mode
         return None
     return val
+
+
+def _self_field_writes(fn):
+    """{field name: [('assign', rvalue) | ('borrow_mut', None)]} for direct writes to fields of `self` (argument 1) in fn."""
+    out = {}
+    for b in fn["body"]["blocks"]:
+        for st in b["s"]:
+            if st[0] != "=":
+                continue
+            if isinstance(st[1], dict) and st[1].get("l") == 1 and st[1]["p"] and st[1]["p"][0][0] == "f":
+                out.setdefault(st[1]["p"][0][2], []).append(("assign", st[2]))
+            rv = st[2]
+            if rv[0] == "ref" and rv[1] == "mut" and isinstance(rv[2], dict) and rv[2].get("l") == 1 and rv[2]["p"] and rv[2]["p"][0][0] == "f":
+                out.setdefault(rv[2]["p"][0][2], []).append(("borrow_mut", None))
+    return out
+
+
+def reply_fallback_rule(ctx, w, node_action, paths):
+    ctx.rule("C14.reply-fallback", "what SanitizerConfig::remove_reply_fallback() stores is (a) not overwritten by any other configuration method and (b) makes "
+                                   "node_action return Remove for every `mx-reply` element, before the depth, ignore and allow tests")
+    SC = "ruma_html::sanitizer_config::SanitizerConfig::"
+    b = w.lookup(SC + "remove_reply_fallback")
+    if not b or "body" not in b:
+        ctx.missing("C14.reply-fallback", "C14.reply-fallback:builder", "SanitizerConfig::remove_reply_fallback not found")
+        return
+    written = _self_field_writes(b)
+    ctx.check(bool(written), "C14.reply-fallback", "C14.reply-fallback:stores", w.where(b), bad_msg="remove_reply_fallback() writes no field of the configuration")
+    # (a) nobody else overwrites those fields
+    n = 0
+    for fn in w.crates["ruma_html"].all_fns():
+        if "body" not in fn or not fn["path"].startswith(SC) or fn["path"] == b["path"] or "{closure" in fn["path"]:
+            continue
+        locs = fn["body"]["locals"]
+        if fn["body"]["argc"] < 1 or "SanitizerConfig" not in locs[1]:
+            continue
+        n += 1
+        clobbered = [fld for fld, ws in _self_field_writes(fn).items() if fld in written and any(k == "assign" for k, _ in ws)]
+        ctx.check(not clobbered, "C14.reply-fallback", f"C14.reply-fallback:overwrite:{fn['path'].rsplit('::', 1)[-1]}", w.where(fn),
+                  bad_msg=f"{fn['path'].rsplit('::', 1)[-1]}() assigns {clobbered}, the field remove_reply_fallback() stores its request in: calling it "
+                          f"afterwards silently cancels the reply-fallback removal")
+    ctx.floor("configuration methods scanned for overwriting the reply-fallback request", n, 10)
+    # (b) effect in node_action
+    is_reply = lambda a: D.show_atom(a).endswith("=='mx-reply'")
+    flag_fields = [fld for fld, ws in written.items() if any(k == "assign" and rv[0] == "use" and rv[1].get("k") == "const" and rv[1].get("v") is True for k, rv in ws)]
+    set_fields = [fld for fld, ws in written.items() if any(k == "borrow_mut" for k, _ in ws)]
+    elem = [p for p in paths if p.kind == "ret" and any(a[0] == "variant" and t and a[2] == "Element" for a, t in p.conds)]
+    if flag_fields:
+        fl = flag_fields[0]
+        is_flag = lambda a: D.show_atom(a) == f"self.{fl}"
+        hit = [p for p in elem if any(is_flag(a) and t for a, t in p.conds) and any(is_reply(a) and t for a, t in p.conds)]
+        ctx.check(bool(hit) and all(D.show(p.ret) == "NodeAction::Remove" for p in hit), "C14.reply-fallback", "C14.reply-fallback:verdict", w.where(node_action),
+                  bad_msg=f"with {fl} set, an `mx-reply` element gets {sorted({D.show(p.ret) for p in hit}) or 'no verdict that tests the flag and the element name'}")
+        early = [p for p in elem if not any(is_flag(a) for a, t in p.conds) and D.show(p.ret) != "NodeAction::Remove"]
+        ctx.check(not early, "C14.reply-fallback", "C14.reply-fallback:before-other-verdicts", w.where(node_action),
+                  bad_msg=f"an element can be kept or unwrapped ({sorted({D.show(p.ret) for p in early})}) before the reply-fallback request is consulted")
+        extra = [p for p in hit if any((("depth" in D.show_atom(a)) or ("ignore_elements" in D.show_atom(a)) or ("allow_elements" in D.show_atom(a))) for a, t in p.conds)]
+        ctx.check(not extra, "C14.reply-fallback", "C14.reply-fallback:unconditional", w.where(node_action),
+                  bad_msg="the removal of `mx-reply` depends on the depth or on the ignore/allow lists: " + "; ".join(sorted({D.show_atom(a) for p in extra for a, t in p.conds if "depth" in D.show_atom(a) or "_elements" in D.show_atom(a)})[:3]))
+    elif set_fields:
+        fl = set_fields[0]
+        in_set = lambda a: D.show_atom(a).startswith(f"HashSet::contains(self.{fl}")
+        hit = [p for p in elem if any(in_set(a) and t for a, t in p.conds)]
+        ctx.check(bool(hit) and all(D.show(p.ret) == "NodeAction::Remove" for p in hit), "C14.reply-fallback", "C14.reply-fallback:verdict", w.where(node_action),
+                  bad_msg=f"an element whose name is in {fl} gets {sorted({D.show(p.ret) for p in hit})}")
+        early = [p for p in elem if not any(in_set(a) for a, t in p.conds) and not any(D.show_atom(a) == f"self.{fl} is None" and t for a, t in p.conds)
+                 and D.show(p.ret) != "NodeAction::Remove"]
+        ctx.check(not early, "C14.reply-fallback", "C14.reply-fallback:before-other-verdicts", w.where(node_action),
+                  bad_msg="an element can be kept or unwrapped before the set holding the reply-fallback request is consulted")
+    else:
+        ctx.unrecognised("C14.reply-fallback", "C14.reply-fallback:shape", w.where(b), f"remove_reply_fallback() writes {sorted(written)} in a form this rule does not model")
